@@ -20,7 +20,7 @@ CONFIG = {
 }
 
 MANIFEST = {
-    "text": "Theorems over a Gallina model of sourcewalk + j5convert + the export/import resolution of protobuild + protocompile's relative type-name resolution, for every name-conversion function and every declaration at every nesting depth (mutual induction on the syntax): (1) contract of properties: fields exactly the declared ones (name, JSON name, number = 1-based position after implicit leading fields, proto type, cardinality, optionality, oneof membership), nested messages/enums exactly the inline types and map entries under the default or overridden name, recursively; (2) enums numbered in order after <PREFIX>UNSPECIFIED = 0; (3) services and topics: <Name>Service / <Topic>Topic, <Method>Request/Response, <Name>Message, HTTP verb and path with :name -> {snake_name}, messaging role, implicit leading metadata field = 1; (4) references: resolution is sound w.r.t. the documented import rule (declarative relation), every reference resolves and its defining file becomes a dependency; (5) acceptance: every package of a valid bundle converts; (6) soundness for whole packages: whatever compiles (conversion + link) satisfies the structural contract, and the link step changes type names only; (7) a relative inline-type name links to the declared type when no nested type is named like its root message. The full statement is refuted by the faithful model with two witnesses replayed on the real compiler. The whole model - imports, services, topics, sub-package files, link step - is tied to the real compiler by comparing complete descriptors of generated bundles; the tables of imports.go / fields.go are re-read on every run.",
+    "text": "Theorems over a Gallina model of sourcewalk + j5convert + the export/import resolution of protobuild + protocompile's relative type-name resolution, for every name-conversion function and every declaration at every nesting depth (mutual induction on the syntax): (1) contract of properties: fields exactly the declared ones (name, JSON name, number = 1-based position after implicit leading fields, proto type, cardinality, optionality, oneof membership), nested messages/enums exactly the inline types and map entries under the default or overridden name, recursively; (2) enums numbered in order after <PREFIX>UNSPECIFIED = 0; (3) services and topics: <Name>Service / <Topic>Topic, <Method>Request/Response, <Name>Message, HTTP verb and path with :name -> {snake_name}, messaging role, implicit leading metadata field = 1; (4) references: resolution is sound w.r.t. the documented import rule (declarative relation), every reference resolves and its defining file becomes a dependency; (5) acceptance: every package of a valid bundle converts; (6) soundness for whole packages: whatever compiles (conversion + link) satisfies the structural contract, and the link step changes type names only; (7) after the link step an inline type name is .<package>.Root.Path.Name and a map entry name the nested entry; (8) C02_full: every package of a valid bundle compiles (conversion, link step, link of all imported generated files) to descriptors satisfying the contract. The whole model - imports, services, topics, sub-package files, link step - is tied to the real compiler by comparing complete descriptors of generated bundles; the tables of imports.go / fields.go are re-read on every run.",
     "note": 'Partial: the package-level composition (link step under the no-capture side condition; services/topics/imports clauses as theorems rather than correspondence + direct oracle) is not yet proved; C02_full_statement is refuted (known finding: relative type names of inline types; recorded because the repair changes output pinned by j5convert/nested_test.go). Fixed: 3ec2d86 (service/topic objects exported as main-package types). Modelled, not verified: strcase (lib/Strcase.v, own stream), path.Join, protocompile name resolution, BCL front end (tied through printed text in all surface forms the printer knows). Outside the model: entities, rules/ext options, descriptions, symbol-collision checks. All theorems closed under the global context.',
     "technique": "Rocq/Coq proof (refinement of the compiler model to a declarative contract, induction on the syntax) + regenerated import/type tables + in-Coq differential correspondence on whole descriptors",
 }
